@@ -158,6 +158,42 @@ def run(ctx):
                 finally:
                     os.unlink(tf)
             results = pool.map(do, cases)
+            # a list entry at the edge of the legal port range (nothing listens there) beside an ordinary target: the ordinary target's JSON element is its single-target result
+            import socket as _sock
+            edge = []
+            for port in (65535, 1):
+                t = _sock.socket()
+                try:
+                    t.settimeout(0.3); t.connect(('127.0.0.1', port)); t.close()
+                    continue      # something listens there on this machine: skip
+                except OSError:
+                    t.close()
+                for order in (0, 1):
+                    for threads in (1, 2):
+                        edge.append({'port': port, 'order': order, 'threads': threads})
+
+            def do_edge(z, c):
+                tf = os.path.join(tmp, 'e%d_%d.txt' % (threading.get_ident() % 100000, int(time.time() * 1e6) % 10 ** 9))
+                ents = ['127.0.0.1:%d' % c['port'], '127.0.0.1:%d' % servers['clean'].port]
+                with open(tf, 'w') as f:
+                    f.write('\n'.join(ents if c['order'] == 0 else ents[::-1]) + '\n')
+                try:
+                    return z.run(['-j', '--skip-rate-test', '-t', '2', '--threads', str(c['threads']), '-T', tf], timeout=120)
+                finally:
+                    os.unlink(tf)
+            edge_res = pool.map(do_edge, edge)
+        for c, r in zip(edge, edge_res):
+            desc = {'op': 'cli-multi-edge-port', 'port': c['port'], 'order': c['order'], 'threads': c['threads']}
+            try:
+                arr = json.loads(r['out'])
+                el = [e for e in arr if e.get('target') == '127.0.0.1:%d' % servers['clean'].port]
+                want = json.loads(base[('clean', 'json')]['out'])
+                if len(el) != 1 or el[0] != want:
+                    ctx.violation('leak/edge-port/json', 'beside an entry at port %d the ordinary target\'s JSON element is %r, its single-target result differs' % (c['port'], (el or [None])[0] and sorted(el[0])[:4]), desc)
+            except (ValueError, AttributeError, TypeError) as e:
+                ctx.violation('lost/edge-port', 'run over [port %d entry, ordinary target] (order %d, threads %d): exit %r, stdout is not the JSON array of both results: %s: %s' % (
+                    c['port'], c['order'], c['threads'], r['rc'], type(e).__name__, (r['out'] + r['err'])[-200:]), desc)
+        ctx.evaluations += len(edge)
         nontriv = set()
         for c, r in zip(cases, results):
             desc = {'op': 'cli-multi', 'combo': c['combo'], 'threads': c['threads'], 'mode': c['mode'][0], 'bare_entry': c['bare']}
